@@ -4,10 +4,17 @@
 //        [fp0=p,p,..] [fp1=..] [sf0=..] [sf1=..] [tx<i>=p,p,..] [hb=<0|1>] [cold=1] | op ; op ; ...
 //   ops:  T <dt> | A <pattern of 0/1> | S <idev> <pri> <pgn> <src> <dst> <tp 0/1> <datahex> | F | C <idev>
 //         P (ParseMessages) | R <idhex> <len> <8 bytes hex>  (frame into the driver's receive queue)
+//         H <interval> <offset> [idev] (SetHeartbeatIntervalAndOffset) | Z <which> <v> (sizing / address setters after initialisation)
+//   public calls of the application (coq/Model/ApiDefs.v):
+//         Q ac <dst> <idev> <delay> (SendIsoAddressClaim) | Q pi <idev> (SendProductInformation) | Q ci <idev> (SendConfigurationInformation)
+//         Q tx|rx <dst> <idev> <tp> (SendTxPGNList / SendRxPGNList) | Q hb <force> (SendHeartbeat(bool)) | Q hd <idev> (SendHeartbeat(int))
+//         Q hi <interval> <idev> (deprecated SetHeartbeatInterval) | I <idev> <lower> <upper> <system> (SetDeviceInformationInstances)
+//         D <idev> <unique> <function> <class> <manufacturer> <industry> (SetDeviceInformation) | X (Restart)
 // Output: for every op its events (tx:<id>:<len>:<data>:<accepted> res:<0/1> dlv:... note:...) separated by " ; ", then " | " and a
 // dump of internal state (read through -fno-access-control).
 // Unless cold=1 the node is opened and has finished address claiming before the ops start (prelude with an accepting driver).
 #include "hcommon.h"
+#pragma GCC diagnostic ignored "-Wdeprecated-declarations"   // the deprecated alias SetHeartbeatInterval is exercised on purpose
 #include "NMEA2000.h"
 #include "N2kMessages.h"
 #include <deque>
@@ -239,6 +246,22 @@ static void run_case(const std::string &line) {
         else if (which == 3) n->SetN2kCANReceiveFrameBufSize((uint16_t)v);
         else n->SetN2kSource((unsigned char)v, which - 4);      // which = 4 + device index: address setter after initialisation (ignored)
       }
+      // public calls an application may make at run time (Model/ApiDefs.v); the sending ones are used on open nodes only
+      else if (t[0] == "Q" && t.size() >= 3) {
+        const std::string &k = t[1];
+        if (k == "ac" && t.size() >= 5) n->SendIsoAddressClaim((unsigned char)tounum(t[2]), atoi(t[3].c_str()), (unsigned long)tounum(t[4]));
+        else if (k == "pi") n->SendProductInformation(atoi(t[2].c_str()));
+        else if (k == "ci") n->SendConfigurationInformation(atoi(t[2].c_str()));
+        else if (k == "tx" && t.size() >= 5) n->SendTxPGNList((unsigned char)tounum(t[2]), atoi(t[3].c_str()), t[4] == "1");
+        else if (k == "rx" && t.size() >= 5) n->SendRxPGNList((unsigned char)tounum(t[2]), atoi(t[3].c_str()), t[4] == "1");
+        else if (k == "hb") n->SendHeartbeat((bool)(t[2] == "1"));
+        else if (k == "hd") n->SendHeartbeat((int)atoi(t[2].c_str()));
+        else if (k == "hi" && t.size() >= 4) n->SetHeartbeatInterval((unsigned long)tounum(t[2]), true, atoi(t[3].c_str()));
+        else out += "badop ";
+      }
+      else if (t[0] == "I" && t.size() >= 5) n->SetDeviceInformationInstances((uint8_t)tounum(t[2]), (uint8_t)tounum(t[3]), (uint8_t)tounum(t[4]), atoi(t[1].c_str()));
+      else if (t[0] == "D" && t.size() >= 7) n->SetDeviceInformation((unsigned long)tounum(t[2]), (unsigned char)tounum(t[3]), (unsigned char)tounum(t[4]), (uint16_t)tounum(t[5]), (unsigned char)tounum(t[6]), atoi(t[1].c_str()));
+      else if (t[0] == "X") n->Restart();
       else if (t[0] == "H" && t.size() >= 3) n->SetHeartbeatIntervalAndOffset((uint32_t)tounum(t[1]), (uint32_t)tounum(t[2]), t.size() > 3 ? atoi(t[3].c_str()) : -1);
       else if (t[0] == "R" && t.size() >= 4) {
         RxFrame f; f.id = strtoul(t[1].c_str(), 0, 16); f.len = (unsigned char)atoi(t[2].c_str());
